@@ -336,3 +336,17 @@ Definition op_ok (L : layout) (o : op) : bool :=
   | MergeSelf g n => adjacent g (ooo L) && between_neighbours g n (ooo L)
   | MergeOOO g b => is_prefix g (ooo L)
   end.
+
+(* boolean equality of tables (for Examples and the evaluator) *)
+Fixpoint zz_list_eqb (a b : list (Z * Z)) : bool :=
+  match a, b with
+  | [], [] => true
+  | x :: a', y :: b' => (fst x =? fst y) && (snd x =? snd y) && zz_list_eqb a' b'
+  | _, _ => false
+  end.
+Fixpoint Corr_eq (a b : table) : bool :=
+  match a, b with
+  | [], [] => true
+  | x :: a', y :: b' => (fst (fst x) =? fst (fst y)) && (snd (fst x) =? snd (fst y)) && zz_list_eqb (snd x) (snd y) && Corr_eq a' b'
+  | _, _ => false
+  end.
